@@ -699,6 +699,14 @@ func (p *parser) lowerClass(stmt js_ast.Stmt, expr js_ast.Expr, result visitClas
 			symbol := &p.symbols[ctx.class.Name.Ref.InnerIndex]
 			ctx.nameToKeep = symbol.OriginalName
 
+			// The name of a class expression isn't a member of any scope, so it isn't
+			// automatically marked as "MustNotBeRenamed" when the class contains a
+			// direct eval call that can see it. Do that now, before the inner class
+			// name (which may already be marked) is merged into it below.
+			if result.bodyScope != nil && result.bodyScope.Parent != nil && result.bodyScope.Parent.ContainsDirectEval {
+				symbol.Flags |= ast.MustNotBeRenamed
+			}
+
 			// The inner class name inside the class expression should be the same as
 			// the class expression name itself
 			if result.innerClassNameRef != ast.InvalidRef {
